@@ -163,11 +163,15 @@ pub fn run_case(part: &Part, case: &Case, ctx: &Ctx) -> Outcome {
                 println!("HARNESS-ERROR panic in the harness at {}: {} (case saved to {})", location, message, path);
                 std::process::exit(2);
             }
+            // the first panic of the case is the root cause; later ones usually follow from it
+            let all = crate::sim::panics_since(before);
+            let root = all.iter().find(|p| !p.location.starts_with("src/")).cloned();
+            let (rl, rm) = root.map(|p| (p.location, p.message)).unwrap_or((location.clone(), message.clone()));
             let mut out = Outcome::default();
             out.violate(
-                &format!("panic@{}", location),
-                format!("panic in the code under test at {}: {}", location, message),
-                json!({"location": location, "message": message}),
+                &format!("panic@{}", rl),
+                format!("panic in the code under test at {}: {}", rl, rm),
+                json!({"panics": all.iter().map(|p| format!("node {} {}: {}", p.node, p.location, p.message)).collect::<Vec<_>>()}),
             );
             out
         }
@@ -176,6 +180,15 @@ pub fn run_case(part: &Part, case: &Case, ctx: &Ctx) -> Outcome {
 
 pub fn verif_root() -> String {
     std::env::var("VERIF_ROOT").unwrap_or_else(|_| "/verif".to_string())
+}
+
+/// Parts that enumerate a finite space completely: (property, part) -> size of the space. The case
+/// with index i carries cfg[0] = ceil(i * 2^32 / size), which the part maps back to i.
+pub fn enumerated_space(prop: &str, part: &str) -> Option<u64> {
+    match (prop, part) {
+        ("C14", "enumerated-cuts") => Some(crate::props::c14::space_size()),
+        _ => None,
+    }
 }
 
 pub const BENCH_BUILD: bool = cfg!(feature = "benchmark");
@@ -280,6 +293,10 @@ pub fn run_property(def: &PropDef, ctx: &Ctx, only_part: Option<&str>, scale: f6
                     .stack_size(64 << 20);
                 builder
                     .spawn_scoped(scope, move || {
+                        let per_worker = match enumerated_space(id, part.name) {
+                            Some(size) => (0..size).filter(|i| (*i as usize) % nworkers == w).count() as u64,
+                            None => per_worker,
+                        };
                         let config = Config {
                             cases: per_worker as u32,
                             failure_persistence: None,
@@ -294,6 +311,23 @@ pub fn run_property(def: &PropDef, ctx: &Ctx, only_part: Option<&str>, scale: f6
                         let failed_cell = std::cell::Cell::new(false);
                         let first_fail_cell: std::cell::RefCell<Option<(Case, Violation)>> = std::cell::RefCell::new(None);
                         let strat = strategy(part.cfg_len, part.tape_max);
+                        let enumerated = enumerated_space(id, part.name);
+                        let strat = match enumerated {
+                            Some(size) => {
+                                // worker w takes indices w, w+nworkers, ... (exhaustive, no randomness)
+                                let idxs: Vec<u64> = (0..size).filter(|i| (*i as usize) % nworkers == w).collect();
+                                let counter = std::sync::Arc::new(std::sync::atomic::AtomicUsize::new(0));
+                                let n = idxs.len().max(1);
+                                proptest::strategy::LazyJust::new(move || {
+                                    let k = counter.fetch_add(1, Ordering::Relaxed) % n;
+                                    let i = idxs.get(k).copied().unwrap_or(0);
+                                    let cfg0 = (((i as u128) << 32) + size as u128 - 1) / size as u128;
+                                    Case { cfg: vec![cfg0 as u32], tape: Vec::new() }
+                                })
+                                .boxed()
+                            }
+                            None => strat.boxed(),
+                        };
                         let result = runner.run(&strat, |case| {
                             let failed = failed_cell.get();
                             let mut local = local_cell.borrow_mut();
@@ -411,7 +445,8 @@ pub fn run_property(def: &PropDef, ctx: &Ctx, only_part: Option<&str>, scale: f6
         part_reports.push(json!({
             "part": part.name,
             "build": build_name(),
-            "planned_cases": total,
+            "planned_cases": enumerated_space(def.id, part.name).unwrap_or(total),
+            "exhaustive": enumerated_space(def.id, part.name).is_some(),
             "evaluations": s.evaluations,
             "nontrivial": s.nontrivial,
             "distinct_nontrivial": s.distinct.len(),
